@@ -234,6 +234,12 @@ def f_shape_core() -> List[Case]:
     for w in (2, 7, 9, 24, 31, 33, 40, 48, 56, 63):
         add(f"sarr{w}", [Message("M", [Field(U(3), "p", 1), Field(TArray(I(w), 3), "v", 2), Field(I(w), "s", 3), Field(U(2), "t", 4)])], ("signed",))
 
+    # C struct packing alignment option (layout of the struct changes, the wire must not)
+    for al in (1, 2, 4, 8):
+        inner_p = Message("Inner", [Field(U(3), "a", 1), Field(I(33), "b", 2), Field(B, "c", 3)])
+        add(f"packed{al}", [inner_p, Message("M", [Field(B, "f", 1), Field(I(64), "big", 2), Field(U(3), "t", 3), Field(TArray(I(17), 3), "arr", 4), Field(TRef(inner_p), "inner", 5), Field(TArray(TRef(inner_p), 2), "inners", 6), Field(U(9), "z", 7)])],
+            ("packed",), options=[("c.struct_packing_alignment", str(al))])
+
     # upstream-like mixed schema
     ts = Alias("Timestamp", I(64))
     tri = Alias("TernaryInt32", TArray(I(32), 3, ext=True))
@@ -453,6 +459,9 @@ def f_evo(quick: bool, seed: int) -> List[EvoCase]:
             pairs = pairs[: max(4, len(singles))]
             chains = chains[:: 2] if len(chains) > 12 else chains
         chains += pairs
+        if not quick and len(singles) >= 3:  # seeded sample of three-step chains
+            for _ in range(6):
+                chains.append(tuple(rng.choice(singles) for _ in range(3)))
         only = [m.name for m in base.top()]
         for ci, ch in enumerate(chains):
             p2 = copy.deepcopy(base.proto)
